@@ -87,9 +87,13 @@ class Sweep:
         return self.FST(self.src, 'exec')
 
     def fail(self, prop, key, what, **kw):
-        if prop in self.props and len(self.failures) < 12:
+        if prop not in self.props:
+            return
+        from contracts.b_lib import room
+        ok, kn = room(self.failures, f'{prop}.B.{key}', 12)
+        if ok:
             kw.pop('program', None)
-            self.failures.append(dict(key=f'{prop}.B.{key}', what=what, program=self.name, replayed=True, **kw))
+            self.failures.append(dict(key=f'{prop}.B.{key}', what=what, program=self.name, replayed=True, _known=kn, **kw))
 
     def pre_edit(self, root):
         if 'C02' in self.props and self.payload.get('prepass', True):
